@@ -333,6 +333,9 @@ func main() {
 		}
 		// violations: dedupe, replay
 		seen := map[string]int{}
+		okCount := map[string]int{}  // reproduced replays per key
+		tries := map[string]int{}    // replay attempts per key
+		lastShape := map[string]string{}
 		for _, v := range e.violations {
 			shape := map[string]int{}
 			var shapeS []string
@@ -352,10 +355,20 @@ func main() {
 					}
 				}
 			}
-			if seen[key] <= *maxReplay && *doReplay {
+			// replay until maxreplay counterexamples of this kind reproduced; a counterexample that does not reproduce (a model
+			// freedom the native environment does not have, e.g. "protobuf accepts these bytes") is followed by further
+			// attempts on counterexamples of a different shape, up to 12 attempts
+			shapeKey := strings.Join(shapeS, ",")
+			want := *doReplay && okCount[key] < *maxReplay && tries[key] < 12 && (tries[key] < *maxReplay || okCount[key] > 0 || lastShape[key] != shapeKey)
+			if want {
+				tries[key]++
+				lastShape[key] = shapeKey
 				dir := filepath.Join(*workDir, fmt.Sprintf("replay-%s-%d", en, len(res.Violations)))
 				ok, tail := replay(v, dir, *repoMod, *pkgPat, root.Pkg.Name(), en, native)
 				vr.Replayed, vr.Reproduced, vr.ReplayDir, vr.ReplayTail = true, ok, dir, tail
+				if ok {
+					okCount[key]++
+				}
 			}
 			kind := "VIOLATION-CANDIDATE"
 			if v.Known != "" {
